@@ -2,6 +2,9 @@ mod common;
 mod c16;
 mod c13;
 mod c09;
+mod proc;
+mod c12;
+mod c20;
 
 fn main() {
     let argv: Vec<String> = std::env::args().collect();
@@ -12,6 +15,8 @@ fn main() {
         "c13" => c13::run(&a),
         "c09" => c09::run(&a),
         "c10" => c09::run_c10(&a),
+        "c12" => c12::run(&a),
+        "c20" => c20::run(&a),
         x => { eprintln!("unknown subcommand {x}"); std::process::exit(2); }
     }
 }
